@@ -190,9 +190,9 @@ def decide(prop, tier, seed, repo, workdir, a, t0):
             if m and any(k.startswith(m.group(1)) for k in baseline):
                 in_baseline = True
         if reproduced or same_prop_concrete:
-            violations.append((path, "E1 obligation failed: %s" % name, ""))
+            violations.append((path, "%s obligation failed: %s" % (r.get("engine", "E1"), name), ""))
         elif in_baseline:
-            violations.append((path, "E1 obligation failed (was proved on the pinned tree): %s" % name, " no-failing-input-found"))
+            violations.append((path, "%s obligation failed (was proved on the pinned tree): %s" % (r.get("engine", "E1"), name), " no-failing-input-found"))
         else:
             undecided.append("%s: failed but neither in the baseline nor reproducible - reported as undecided" % name)
     for f in new_e3:
